@@ -38,6 +38,7 @@ func vSerPopulated(k *vSerKind) any {
 }
 
 func vC16Mismatch(c *vCtx) {
+	vFixLevels()
 	base := map[string]vVecCfg{
 		"flat":  {Kind: "flat", Metric: Euclidean, Dim: 2},
 		"hnsw":  {Kind: "hnsw", Metric: Euclidean, Dim: 2, M: 2, Ef: 8},
